@@ -233,6 +233,7 @@ func (d *dir) gc(cur, prev time.Time) error {
 	if err != nil {
 		return fmt.Errorf("failed to list repos in gc: %w", err)
 	}
+	errs := []error{}
 	for _, r := range repoNames {
 		// if stop ch was closed, exit immediately
 		select {
@@ -254,10 +255,11 @@ func (d *dir) gc(cur, prev time.Time) error {
 		}
 		err = repo.gc()
 		if err != nil {
-			return err
+			// a repository that cannot be collected does not keep the others from being collected
+			errs = append(errs, err)
 		}
 	}
-	return nil
+	return errors.Join(errs...)
 }
 
 // IndexGet returns the current top level index for a repo.
